@@ -353,3 +353,51 @@ Lemma vn_returns_closed_form_executable p h st i acc :
   nth i (v_returns st) 0 == disc (p_gamma p) acc ->
   nth i (v_returns (vn_run update_red Qred p st h)) 0 == disc (p_gamma p) (rewards_since i acc h).
 Proof. apply vn_returns_closed_form_red. exact Qred_correct. Qed.
+
+(* ---------- model mutation score: unnormalize per key; the comparators of the trace checker pinned ---------- *)
+(* unnormalize_obs: a channel of a key that is not normalised (or norm_obs off) passes through; a normalised one gets y*s + mean *)
+Lemma norm_unvec_off p : forall chans ms ss y, length ms = length chans -> length ss = length chans -> length y = length chans ->
+  norm_unvec p false chans ms ss y = y.
+Proof.
+  induction chans as [|c chans IH]; intros [|m ms] [|s ss] [|v y] H1 H2 H3; cbn in *; try discriminate; try reflexivity.
+  f_equal. apply IH; congruence.
+Qed.
+
+Lemma norm_unvec_per_key p : forall chans ms ss y ch,
+  length ms = length chans -> length ss = length chans -> length y = length chans -> (ch < length chans)%nat ->
+  nth ch (norm_unvec p true chans ms ss y) 0
+  = if nth ch chans false then unnormalize_s (nth ch y 0) (r_mean (nth ch ms (rms_init eps_default))) (nth ch ss 0) else nth ch y 0.
+Proof.
+  induction chans as [|c chans IH]; intros [|m ms] [|s ss] [|v y] ch H1 H2 H3 Hlt; cbn in *; try discriminate; try lia.
+  destruct ch as [|ch]; cbn; [destruct c; reflexivity|]. apply IH; try congruence. lia.
+Qed.
+
+(* a concrete step: 1 env, 1 normalised channel, statistics (0, 1, 1e-4), eps 0, hint 1; observation 3 (done), terminal 5, reward 2 *)
+Definition pin_p : vnp := mk_vnp 10 10 (1 # 2) 0 [true].
+Definition pin_st : vn := vn_op update_red Qred pin_p (vn_init pin_p 1 false true true) (OStep [[3]] [2] [true]).
+Definition pin_ck (term_y unn_rew : Q) (out : list Q) : opcheck :=
+  mk_ck [Some (0, 1, eps_default, 1)] (0, 1, eps_default, 1) [0] [out] [Some ([5], [term_y])] [[3]] [2] [[3]] [2] [unn_rew].
+
+Example check_state_accepts : check_state tol9 pin_p pin_st (OStep [[3]] [2] [true]) (pin_ck 5 2 [3]) = [true; true; true; true; true; true; true].
+Proof. vm_compute. reflexivity. Qed.
+(* a wrong terminal observation, a wrong unnormalised reward, a wrong returned observation are each REJECTED (and only there) *)
+Example check_state_rejects_terminal : check_state tol9 pin_p pin_st (OStep [[3]] [2] [true]) (pin_ck 6 2 [3]) = [true; true; true; false; true; true; true].
+Proof. vm_compute. reflexivity. Qed.
+Example check_state_rejects_unnorm_reward : check_state tol9 pin_p pin_st (OStep [[3]] [2] [true]) (pin_ck 5 7 [3]) = [true; true; true; true; true; false; true].
+Proof. vm_compute. reflexivity. Qed.
+Example check_state_rejects_observation : nth 3 (check_state tol9 pin_p pin_st (OStep [[3]] [2] [true]) (pin_ck 5 2 [4])) true = false.
+Proof. vm_compute. reflexivity. Qed.
+
+Example all2_pins :
+  all2 Qeq_bool [1; 2] [1; 2] = true /\ all2 Qeq_bool [1; 2] [1; 3] = false /\ all2 Qeq_bool [1; 2] [2; 2] = false /\
+  all2 Qeq_bool [1] [1; 2] = false /\ all2 Qeq_bool [1; 2] [1] = false /\ all2 Qeq_bool [] [] = true.
+Proof. repeat split. Qed.
+Example hints_ok_pins :
+  hints_ok tol9 0 [] [] = true /\ hints_ok tol9 0 [rms_init eps_default] [Some (0, 1, 1, 1)] = true /\
+  hints_ok tol9 0 [rms_init eps_default] [Some (0, 1, 1, 2)] = false /\ hints_ok tol9 0 [rms_init eps_default] [None] = true.
+Proof. repeat split. Qed.
+Example sqrt_hint_pins : sqrt_hint_ok tol9 3 9 0 = true /\ sqrt_hint_ok tol9 3 8 0 = false /\ sqrt_hint_ok tol9 (-3) 9 0 = false.
+Proof. repeat split. Qed.
+Example norm_unvec_pins :
+  norm_unvec pin_p true [false; true] [rms_init 1; mk_rms 2 1 1] [1; 3] [5; 5] = [5; 5 * 3 + 2].
+Proof. reflexivity. Qed.
